@@ -139,6 +139,19 @@ def r2(ck, F):
             o = ordering_of(ad, t["argv"][3])
             rets = [show(p.ret) for p in PathEval(ad).run() if p.end == "return"]
             ok = cur[0] == "arg" and cur[1] == 3 and ORD_RANK.get(o, 0) >= 2 and len(rets) == 1 and rets[0].startswith("is_ok(compare_exchange(arg1.next_date, arg3")
+            # the new boundary is computed from the clock reading of *this* write (`now`), so that it lies in the future
+            # of that reading and a second write at the same instant cannot rotate again
+            if ok:
+                newv = [p.calls for p in PathEval(ad).run() if p.end == "return"][0]
+                nd = [c for c in newv if c[1].get("path") == R + "Rotation::next_date"]
+                if len(nd) != 1 or nd[0][2][1] != ("arg", 2):
+                    ok = False
+                    ck.bad("C16.R2", "advance_date: the next boundary is computed from the current clock reading", where(ad.raw["sp"]),
+                           "next_date is computed from %s instead of the `now` of this write: after a multi-period gap the stored boundary stays in the past and writes at the same instant rotate again"
+                           % (show(nd[0][2][1]) if nd else "nothing"), fn=ad.path)
+                    return_early = True
+                else:
+                    ck.ok("C16.R2", "advance_date: the next boundary is computed from the current clock reading", fn=ad.path)
         if ok:
             ck.ok("C16.R2", "advance_date: CAS(next_date: the value should_rollover saw -> next boundary); winner = is_ok", fn=ad.path)
         else:
